@@ -40,7 +40,7 @@ SAMPLERS = ["random", "tpe", "tpe_mv_group", "tpe_liar", "nsga2", "nsga3", "qmc"
 def run_one(sampler_name, pruner_name, prog, seed, n_trials, dirs, mirror, storage=None):
     import optuna
 
-    study = optuna.create_study(sampler=optrun.make_sampler(sampler_name, seed, prog), pruner=optrun.make_pruner(pruner_name, mirror=mirror),
+    study = optuna.create_study(sampler=optrun.make_sampler(sampler_name, seed, prog), pruner=optrun.make_pruner(pruner_name, mirror=mirror, variant=prog.get("threshold_variant", 0)),
                                 directions=dirs, study_name="c13", storage=storage)
     err = None
     try:
@@ -70,6 +70,12 @@ def one_case(ctx: Ctx, rng, cidx: int, force_sampler: str | None = None) -> None
     prog = optrun.gen_program(rng, nobj, finite=(sampler_name == "bruteforce"))
     prog["fail_mod"] = 0 if rng.random() < 0.5 else prog["fail_mod"]
     prog["distinct"] = True
+    if pruner_name == "threshold":
+        # the bounds include exactly 0.0 (mirrored: -0.0) and one-sided pruners; reported values are shifted so that they cross zero
+        prog["threshold_variant"] = cidx % 4
+        if prog["threshold_variant"]:
+            prog["report_shift"] = round(rng.uniform(0.0, 10.0), 3)
+            ctx.count("threshold_cases_with_a_zero_bound")
     seed = rng.randint(0, 10 ** 6)
     n_trials = {"gp": 13}.get(sampler_name, rng.randint(15, ctx.pick(30, 60)))
     if sampler_name == "gp":
